@@ -983,7 +983,8 @@ pub fn run(ctx: &mut Ctx) {
                         if let (true, Some(e)) = (is_block_style(&toks[idx]), match_end(&toks, idx)) {
                             let touches = |i: usize| i >= idx && i <= e;
                             let mut nalt = 0;
-                            let eligible = plan.iter().all(|s| match s {
+                            // (`add_instr_at` goes where the step in front of it left the modes: taking a step out changes its meaning)
+                            let eligible = !plan.iter().any(|s| matches!(s, Step::AddAt { .. })) && plan.iter().all(|s| match s {
                                 Step::At { idx: i, mode, .. } | Step::InjectAt { idx: i, mode, .. } | Step::AddAt { idx: i, mode, .. } => {
                                     if *mode == 6 {
                                         nalt += 1;
